@@ -132,7 +132,7 @@ std::string plan_to_json(const Plan& p, bool) {
       kn["broker"] = b; }
     { json::object n; const auto& nk = k.net;
       n["lat_min"] = nk.lat_min; n["lat_max"] = nk.lat_max; n["write_done_max"] = nk.write_done_max; n["write_done_zero_p"] = nk.write_done_zero_p; n["write_block_p"] = nk.write_block_p;
-      n["short_write_p"] = nk.short_write_p; n["seg_split_p"] = nk.seg_split_p; n["chunk_mode"] = nk.chunk_mode; n["connect_lat_max"] = nk.connect_lat_max;
+      n["short_write_p"] = nk.short_write_p; n["seg_split_p"] = nk.seg_split_p; n["coalesce_b2c"] = nk.coalesce_b2c; n["chunk_mode"] = nk.chunk_mode; n["connect_lat_max"] = nk.connect_lat_max;
       n["chunk_salt"] = nk.chunk_salt;
       kn["net"] = n; }
     root["knobs"] = kn;
@@ -167,7 +167,7 @@ bool plan_from_json(const std::string& text, Plan& out, std::string* err) {
           bk.answer_ping = b.at("answer_ping").as_bool(); bk.respect_client_limits = b.at("respect_client_limits").as_bool(); bk.hostile = b.at("hostile").as_bool(); bk.hostile_p = b.at("hostile_p").to_number<double>(); }
         { auto& n = kn.at("net").as_object(); auto& nk = k.net;
           nk.lat_min = n.at("lat_min").to_number<int64_t>(); nk.lat_max = n.at("lat_max").to_number<int64_t>(); nk.write_done_max = n.at("write_done_max").to_number<int64_t>();
-          nk.write_done_zero_p = n.at("write_done_zero_p").to_number<double>(); if (n.contains("write_block_p")) nk.write_block_p = n.at("write_block_p").to_number<double>(); else nk.write_block_p = 0; nk.short_write_p = n.at("short_write_p").to_number<double>(); nk.seg_split_p = n.at("seg_split_p").to_number<double>();
+          nk.write_done_zero_p = n.at("write_done_zero_p").to_number<double>(); if (n.contains("write_block_p")) nk.write_block_p = n.at("write_block_p").to_number<double>(); else nk.write_block_p = 0; nk.short_write_p = n.at("short_write_p").to_number<double>(); nk.seg_split_p = n.at("seg_split_p").to_number<double>(); if (n.contains("coalesce_b2c")) nk.coalesce_b2c = n.at("coalesce_b2c").as_bool();
           nk.chunk_mode = (int)n.at("chunk_mode").to_number<int>(); nk.connect_lat_max = n.at("connect_lat_max").to_number<int64_t>(); nk.chunk_salt = n.at("chunk_salt").to_number<uint64_t>(); }
         for (auto& e : root.at("steps").as_array()) out.steps.push_back(step_u(e.as_object()));
         return true;
